@@ -96,3 +96,53 @@ func VerifH_C12_nan_fields() {
 		verifAssert(f != f, "a NaN or infinite field gives an invalid date (NaN time value)")
 	}
 }
+
+// Field normalisation of Date.UTC and the multi-argument constructor (ES5
+// 15.9.4.3 / 15.9.3.1 steps 1-8): every field goes through ToInteger first, and
+// a year whose INTEGER value lies in 0..99 means 1900 + year. Metamorphic form:
+// the call on the raw fields must equal the call on the normalised fields. The
+// calendar itself (Go's time.Date) is an uninterpreted function of its fields in
+// the engine, so the two sides agree iff otto hands it the same fields; the
+// native replay runs the real one.
+func VerifH_C12_field_normalisation() {
+	vm := New()
+	n := 2 + verifChoose(6)
+	k := verifChoose(n) // the field that is any double; the others are fixed integers
+	fixed := []float64{1987, 5, 17, 13, 45, 59, 123}
+	raw, norm := "", ""
+	for i := 0; i < n; i++ {
+		f := fixed[i]
+		if i == k {
+			f = verifNondetFloat64()
+			verifAssume(f == f && math.Abs(f) < 9007199254740992.0)
+		}
+		g := refToInteger(f)
+		if i == 0 && g >= 0 && g <= 99 {
+			g += 1900
+		}
+		vm.Set("f"+verifItoa(int64(i)), f)
+		vm.Set("g"+verifItoa(int64(i)), g)
+		if i > 0 {
+			raw += ", "
+			norm += ", "
+		}
+		raw += "f" + verifItoa(int64(i))
+		norm += "g" + verifItoa(int64(i))
+	}
+	// (the multi-argument constructor runs the same newDateTime; building the Date
+	// object afterwards goes through time.Unix, which no solver here decides)
+	script := "[Date.UTC(" + raw + "), Date.UTC(" + norm + ")]"
+	verifLog(script)
+	v, ok := verifRun(vm, script)
+	verifCover("reached")
+	verifAssert(ok, "does not throw")
+	if !ok {
+		return
+	}
+	o := v.Object()
+	a, _ := o.Get("0")
+	b, _ := o.Get("1")
+	af, _ := a.ToFloat()
+	bf, _ := b.ToFloat()
+	verifAssert(sameF64(af, bf), "15.9.4.3: fields are ToInteger'd, then a year in 0..99 means 1900 + year")
+}
